@@ -580,7 +580,7 @@ def vary_envelope(rng, text, prob=0.25):
 # The model is defined on arbitrary element trees, so the correspondence must hold on all of them.
 
 MUTATIONS = ['dup-elem', 'drop-elem', 'move-elem', 'nest-copy', 'wrap', 'attr', 'text', 'tail', 'blank-id', 'pad-id', 'swap-id',
-             'dup-id-tag', 'rename-id-case', 'empty-elem']
+             'dup-id-tag', 'rename-id-case', 'empty-elem', 'ws-mix']
 ID_TAGS = ('storyID', 'itemID', 'roID', 'messageID')
 
 
@@ -626,6 +626,8 @@ def mutate_doc(rng, text, other_text=None, n=1):
         elif op == 'wrap':
             del p_[i]
             p_.insert(i, E('wrapper', c))
+        elif op == 'ws-mix':
+            whitespace_mix(rng, root, 0.5)
         elif op == 'attr':
             c.set(rng.choice(['kind', 'rev', 'operation', 'id']), rng.choice(['x', '', 'MOVE', ' spaced ']))
         elif op == 'text':
@@ -657,6 +659,21 @@ def mutate_doc(rng, text, other_text=None, n=1):
                     e.remove(ch)
                 e.text = ''
     return sprinkle(rng, ET.tostring(root, encoding='unicode'), 0.2)
+
+
+def whitespace_mix(rng, root, prob=0.35):
+    """blank and non-blank text / tails on elements that have children, in every combination: indentation that is real
+    content because the parent also carries text, notes after an element, blanks between siblings.  Mutates and returns root."""
+    for e in root.iter():
+        if len(e) == 0 or e.tag in ('mos',):
+            continue
+        if rng.random() < prob:
+            e.text = rng.choice([None, ' ', '\n    ', 'lead text', '\n  lead\n  '])
+            for c in e:
+                if c.tag in ('storyID', 'itemID', 'roID', 'messageID'):
+                    continue
+                c.tail = rng.choice([None, None, ' ', '\n    ', '(note)', ' tail '])
+    return root
 
 
 def sprinkle(rng, text, prob=0.3):
